@@ -236,7 +236,7 @@ pub mod vharness {
         }
     }
 
-    //@harness props=C15,C01 strength=proof clause="entering level L pushes 'left operand of L pending' and descends one level; nothing is consumed"
+    //@harness props=C15,C01 quickfor=C15 strength=proof clause="entering level L pushes 'left operand of L pending' and descends one level; nothing is consumed"
     #[kani::proof]
     #[kani::unwind(6)]
     fn prec_binary_arm() {
@@ -254,7 +254,7 @@ pub mod vharness {
         core::mem::forget(stack);   // harness only: dropping a Vec<StackItem> makes CBMC unwind its drop loop without bound
     }
 
-    //@harness props=C15,C01 strength=proof clause="after a left operand at level L, for EVERY current token and every two tokens of lookahead: a binary operator is accepted exactly when its level in the Jsonnet table is L; then it is consumed, recorded with the AST operator the specification names, and its right operand is parsed one level tighter while the level L stays open (left associativity); any other token ends level L with the operand unchanged and nothing consumed; `e in super` (not followed by . or [) forms an InSuper node that continues at the same level" timeout=900 replay=parser_prec
+    //@harness props=C15,C01 quickfor=C15 strength=proof clause="after a left operand at level L, for EVERY current token and every two tokens of lookahead: a binary operator is accepted exactly when its level in the Jsonnet table is L; then it is consumed, recorded with the AST operator the specification names, and its right operand is parsed one level tighter while the level L stays open (left associativity); any other token ends level L with the operand unchanged and nothing consumed; `e in super` (not followed by . or [) forms an InSuper node that continues at the same level" timeout=900 replay=parser_prec
     #[kani::proof]
     #[kani::unwind(6)]
     fn prec_binary_rhs_arm() {
@@ -312,7 +312,7 @@ pub mod vharness {
         core::mem::forget(stack);   // harness only: dropping a Vec<StackItem> makes CBMC unwind its drop loop without bound
     }
 
-    //@harness props=C15,C01 strength=proof clause="`in super` followed by . or [ is the ordinary operator `in` whose right operand starts with super" timeout=900
+    //@harness props=C15,C01 quickfor=C15 strength=proof clause="`in super` followed by . or [ is the ordinary operator `in` whose right operand starts with super" timeout=900
     #[kani::proof]
     #[kani::unwind(6)]
     fn prec_in_super_field() {
@@ -327,7 +327,7 @@ pub mod vharness {
         core::mem::forget(stack);   // harness only: dropping a Vec<StackItem> makes CBMC unwind its drop loop without bound
     }
 
-    //@harness props=C15,C01 strength=proof clause="completing the left operand of level L continues at level L with that operand (any level)"
+    //@harness props=C15,C01 quickfor=C15 strength=proof clause="completing the left operand of level L continues at level L with that operand (any level)"
     #[kani::proof]
     #[kani::unwind(6)]
     fn prec_parsed_lhs_arm() {
@@ -338,7 +338,7 @@ pub mod vharness {
         assert!(p.cur_span() == sp[1], "C15:parser:completing-an-operand-consumes-nothing");
     }
 
-    //@harness props=C15,C01 strength=proof clause="completing the right operand of `lhs op _` at level L builds Binary(lhs, op, rhs) spanning from lhs's first byte to rhs's last, and CONTINUES AT LEVEL L with that node as the new left operand - i.e. a op b op' c at one level groups (a op b) op' c (left associativity), for every level and operator" timeout=900
+    //@harness props=C15,C01 quickfor=C15 strength=proof clause="completing the right operand of `lhs op _` at level L builds Binary(lhs, op, rhs) spanning from lhs's first byte to rhs's last, and CONTINUES AT LEVEL L with that node as the new left operand - i.e. a op b op' c at one level groups (a op b) op' c (left associativity), for every level and operator" timeout=900
     #[kani::proof]
     #[kani::unwind(6)]
     fn prec_parsed_rhs_arm() {
@@ -363,7 +363,7 @@ pub mod vharness {
         assert!(p.cur_span() == sp[1], "C15:parser:completing-an-operand-consumes-nothing");
     }
 
-    //@harness props=C15,C01 strength=proof clause="at unary position, for EVERY token: + - ~ ! are consumed and recorded with the specified AST operator and the parser stays at unary position (so unary operators nest and bind tighter than every binary operator); any other token starts a primary expression followed by its suffixes, nothing consumed" timeout=900
+    //@harness props=C15,C01 quickfor=C15 strength=proof clause="at unary position, for EVERY token: + - ~ ! are consumed and recorded with the specified AST operator and the parser stays at unary position (so unary operators nest and bind tighter than every binary operator); any other token starts a primary expression followed by its suffixes, nothing consumed" timeout=900
     #[kani::proof]
     #[kani::unwind(6)]
     fn prec_unary_arm() {
@@ -388,7 +388,7 @@ pub mod vharness {
         core::mem::forget(stack);   // harness only: dropping a Vec<StackItem> makes CBMC unwind its drop loop without bound
     }
 
-    //@harness props=C15,C01 strength=proof clause="completing the operand of a unary operator builds Unary(op, operand) spanning operator to operand end and hands it up as a finished expression"
+    //@harness props=C15,C01 quickfor=C15 strength=proof clause="completing the operand of a unary operator builds Unary(op, operand) spanning operator to operand end and hands it up as a finished expression"
     #[kani::proof]
     #[kani::unwind(6)]
     fn prec_parsed_unary_arm() {
